@@ -758,6 +758,25 @@ func (vf *VFlow) loadCell(cell *ssa.Alloc, fl uint8, out LabelSet, seen map[stri
 	for _, s := range st {
 		vf.walk(s, fl, out, seen, depth+1)
 	}
+	// `var target *T; errors.As(err, &target)`: the library stores into target the object of that type found in err
+	for _, ref := range nonDebugRefs(cell) {
+		mi, isMI := ref.(*ssa.MakeInterface)
+		if !isMI {
+			continue
+		}
+		for _, r2 := range nonDebugRefs(mi) {
+			c, isC := r2.(*ssa.Call)
+			if !isC || calleeName(c) != "errors.As" || len(c.Call.Args) != 2 || c.Call.Args[1] != ssa.Value(mi) {
+				continue
+			}
+			want := typeKey(derefType(cell.Type().Underlying().(*types.Pointer).Elem()))
+			for l, f := range vf.objLabels(c.Call.Args[0], depth+1) {
+				if strings.HasPrefix(l, "alloc:{"+want+"}") {
+					out.add(l, fl|f)
+				}
+			}
+		}
+	}
 	et := cell.Type().Underlying().(*types.Pointer).Elem()
 	switch et.Underlying().(type) {
 	case *types.Struct, *types.Array:
